@@ -94,6 +94,9 @@ func themeSeqPrefixed(r *Run, rng *rand.Rand) *routerGen {
 	pool = pool[:pick(r, 4, 5)]
 	g := baseGen(pool, []string{"GET"})
 	g.Kinds = []string{"Handle", "Update", "Delete"}
+	// a router whose limits are exactly what the pool needs (one wildcard per route, names of one byte): every pattern of
+	// the pool is still accepted by Handle, Update and Delete
+	g.MaxParams, g.MaxKey = 1, 1
 	stdProbes(g, rng, 6)
 	return g
 }
@@ -225,6 +228,7 @@ func runThemes(r *Run, seedOffset int64, themes ...func(*Run, *rand.Rand) *route
 func checkC02(r *Run) {
 	runThemes(r, 0, themeSeqPath, themeSeqHost, themeSeqPrefixed, themeTxnTrunc)
 	runRouterD2(r, 2)
+	runWideNodes(r) // the result classes of the calls on a node wider than any small-node shortcut
 	r.assumption("route identity is observed through pointer equality and a per-registration annotation")
 }
 
@@ -238,6 +242,9 @@ func checkC07(r *Run) {
 	}
 	if only("radix") {
 		runRadix(r)
+	}
+	if only("wide") {
+		runWideNodes(r)
 	}
 	r.assumption("every edge of the exhaustive state graph is one history into its target set; all must answer the probes as the specification prescribes for that set")
 }
@@ -258,6 +265,7 @@ func checkC03(r *Run) {
 	}
 	if only("loads") {
 		runSingleLoadPerRead(r) // the state a request is served from: loaded once, then frozen
+		runRequestKeepsItsState(r)
 	}
 	if only("roots") {
 		runRoots(r)
@@ -274,4 +282,5 @@ func checkC04(r *Run) {
 	runSnapshotIsReadOnly(r)
 	runWriterAfterEndings(r)
 	runSingleLoadPerRead(r) // a request that loads the published state twice can be answered from two sides of a commit
+	runRequestKeepsItsState(r)
 }
